@@ -14,6 +14,7 @@ Safety model (bank-grade, fail closed):
 
 import json
 import logging
+import os
 import time
 from typing import Dict, Set
 
@@ -265,6 +266,12 @@ class GarbageCollector:
 
     def _normalize_path(self, path: str) -> str:
         """Normalize path to be relative to table root and strip leading slashes."""
-        if path.startswith(self.table_path):
-            path = path[len(self.table_path):]
+        # Only an ABSOLUTE table location can legitimately prefix a stored path
+        # (a manifest entry holding the file's real location). A relative
+        # location such as "data" or "d" is also a string prefix of the
+        # table-relative paths the storage listing returns ("data/x.parquet"),
+        # and stripping it there made every live file look like an orphan.
+        root = self.table_path.rstrip("/")
+        if root and os.path.isabs(root) and (path == root or path.startswith(root + "/")):
+            path = path[len(root):]
         return path.lstrip("/")
